@@ -847,6 +847,19 @@ def run(ctx, col: Collector):
         col.floor('C01-mult', 'multiplicity rows', n, 35)
     guarded(col, 'C01-mult', 'multiplicities', multiplicity)
 
+    # ---------------------------------------------------------------- C01-enum (declared type: shared with C05)
+    def enum_types():
+        from . import c05
+        sub = Collector(col.prop)
+        c05.run(ctx, sub)
+        n = 0
+        for o in sub.obs:
+            if o.rule in ('C05-enum', 'C05-schema') or (o.rule == 'C05-resolve' and 'locate' in o.construct):
+                n += 1
+                col.obs.append(type(o)(col.prop, o.rule.replace('C05-', 'C01-'), o.construct, o.status, o.msg, o.file, o.line, o.extra))
+        col.floor('C01-enum', 'enum-type / default-schema / resolver obligations', n, 20)
+    guarded(col, 'C01-enum', 'enum-types', enum_types)
+
     # ---------------------------------------------------------------- C01-sides
     def sides():
         gs = gm.nodes_with_action('parse_ref')
